@@ -170,6 +170,31 @@ Theorem array_history_refines : forall (nv : nat) (ops : list aop),
 Proof. exact SeqArrayProofs.array_history_refines. Qed.
 Print Assumptions array_history_refines.
 
+(* the specification proper: `aspec_ok` demands of every call the statement speaks about (atext: every call except
+   remove(index) with index >= size()) that it does what `aspec` says, from the state the previous calls left, and
+   nothing of the others.  What the code does on remove(index >= size()) - nothing - is a statement about the model. *)
+Theorem array_history_refines_text : forall (nv : nat) (ops : list aop),
+    aspec_ok (sinit nv) ops (aobs_trace (arun (ainit nv) ops)).
+Proof. exact SeqArrayProofs.array_history_refines_text. Qed.
+Print Assumptions array_history_refines_text.
+
+Theorem array_remove_idx_beyond_size_is_noop : forall (k : nat) (a : marr),
+    (length (items a) <= k)%nat -> a_remove_idx k a = a.
+Proof. exact a_remove_idx_beyond. Qed.
+Print Assumptions array_remove_idx_beyond_size_is_noop.
+
+Example array_text_nonvacuous :
+  atext (fun _ => 2%nat) 3 (ARemoveIdx 0 1) = true /\ atext (fun _ => 2%nat) 3 (ARemoveIdx 0 2) = false
+  /\ atext (fun _ => 2%nat) 3 (ARemoveIdx 5 9) = true /\ atext (fun _ => 0%nat) 3 (AAppend 0 1) = true
+  /\ aspec_ok (sinit 1) [AAppend 0 1; ARemoveIdx 0 1; AAppend 0 2] [([[1]], RRef 0%nat); ([[]], RNone); ([[2]], RRef 0%nat)]
+  /\ ~ aspec_ok (sinit 1) [AAppend 0 1; ARemoveIdx 0 0; AAppend 0 2] [([[1]], RRef 0%nat); ([[1]], RNone); ([[1; 2]], RRef 1%nat)].
+Proof.
+  split; [reflexivity|]. split; [reflexivity|]. split; [reflexivity|]. split; [reflexivity|]. split.
+  - constructor; [intros _; reflexivity|]. constructor; [intros H; discriminate H|]. constructor; [intros _; reflexivity|]. constructor.
+  - intros H. inversion H as [|s op s1 r ops tr _ H1]; subst. inversion H1 as [|s' op' s1' r' ops' tr' H2 _]; subst.
+    specialize (H2 eq_refl). discriminate H2.
+Qed.
+
 (* capacity() >= size(); an allocated array has a capacity that is 3 modulo 4; an unallocated one is empty *)
 Theorem array_history_capacity : forall (nv : nat) (ops : list aop),
     Forall (fun wr => forall i, asize (aget i (fst wr)) <= cap (aget i (fst wr))
